@@ -198,7 +198,8 @@ CLAIMED.update({
               "recorder): for 2-4 threads and every mode there is a barrier, made for exactly the round's threads."),
         note=("The cross-thread statement follows from these per-thread orders only together with the ASSUMED semantics of std::sync::Barrier and "
               "with the barrier being created for exactly the round's threads (pinned text in the loop unit). No interleaving is explored (Kani has "
-              "no threads). The panic clause and 'only that thread's own allocations' (thread_local!) are undecided."),
+              "no threads). The panic clause and 'only that thread's own allocations' (thread_local!) are undecided; the tail of the round in bench_loop_threaded "
+              "(recorder call with the round's barrier, par_extend, panic on the caller when a thread delivered no sample) is PINNED text, not proved: a change to it makes this check undecided."),
         technique="bounded Kani harnesses with an online monitor on the real sample_recorder; std Barrier semantics assumed",
         design_ref="5 C08"),
     "C14": dict(
